@@ -256,3 +256,124 @@ def rule_structure(ctx, rule, rule_layout=None):
             ctx.report(rule_layout if (rule_layout and bad[0] != text) else rule, key,
                        "the text %r is read as %s; it denotes %s" % (bad[0], bad[1], show(want)), where)
     return decided
+
+
+# ------------------------------------------------------------------------------------------------ C15: where syntax errors point
+
+SYNTAX_FAULTS = [
+    # (text, the faulty sub-form): the sub-form is malformed, nested in a top-level form that goes on after it, also on later lines
+    ("(list (if)\n  1 2)", "(if)"),
+    ("(list 1\n  (define)\n  2\n  3)", "(define)"),
+    ("(f (lambda)\n   x\n   y)", "(lambda)"),
+    ("(g (set! x)\n)", "(set! x)"),
+    ("(h ()\n 1)", "()"),
+    ("(list (if))", "(if)"),
+    ("(if)", "(if)"),
+]
+
+
+def parse_statement(fb, text):
+    """Parser::advance(1) then Parser::parse_current on `text` with an empty syntax environment: ("ok", value) | ("error", kind,
+    location | None) | ("stuck", why)"""
+    raw = []
+    toks = lexrun.lex(fb, text, max_tokens=80, raw=raw)
+    if toks and toks[-1][0] in ("stuck", "panic"):
+        return ("stuck", "lexer: %s" % (toks[-1][1],))
+    ts = TokenStream(raw)
+    try:
+        names = [f["name"] for f in fb.adt("parser::parser::Parser")["variants"][0]["fields"]]
+        adv = fb.find("parser::parser::Parser::advance")
+        pc = fb.find("parser::parser::Parser::parse_current")
+    except (mir.AnchorMissing, KeyError, TypeError) as e:
+        return ("stuck", "parser entry points: %s" % e)
+    if getattr(adv, "missing", False) or getattr(pc, "missing", False) or not {"current", "lexer", "location"} <= set(names):
+        return ("stuck", "the parser is not driven by advance / parse_current on this tree")
+
+    class Scope:
+        pass
+    senv = Scope()
+    P = [UNKNOWN for _ in names]
+    P[names.index("current")] = none()
+    P[names.index("lexer")] = ts
+    P[names.index("location")] = none()
+    if "syntax_env" in names:
+        P[names.index("syntax_env")] = senv
+
+    def icpt(mc, c, a, tt, g):
+        a0 = a[0] if a else None
+        if a0 is ts:
+            if c.endswith("Peekable::peek") or c.endswith("Peekable::peek_mut"):
+                return some(ts.items[ts.pos]) if ts.pos < len(ts.items) else none()
+            if c.endswith("Peekable as std::iter::Iterator>::next"):
+                if ts.pos < len(ts.items):
+                    ts.pos += 1
+                    return some(ts.items[ts.pos - 1])
+                return none()
+        if c.startswith("environment::LexicalScope::") and a0 is senv:
+            end = c.rsplit("::", 1)[-1]
+            if end in ("get", "get_mut"):
+                return none()                      # no macro is bound: every keyword is a core form or a variable
+            if end == "new_child":
+                return senv
+            if end == "define":
+                return []
+        return NOT
+    try:
+        r0 = Machine(fb, intercept=icpt, max_visits=max(40, len(raw) + 8), budget=6000).run(adv, [P, 1])
+        if isinstance(r0, Enum) and getattr(r0, "name", None) == "Err":
+            return ("error", _err_kind(fb, r0), _err_loc(r0))
+        mc = Machine(fb, intercept=icpt, max_visits=max(40, len(raw) + 8), budget=30000)
+        args = [P] + ([senv] if pc.arg_count >= 2 else [])
+        r = mc.run(pc, args)
+    except (absint.Stuck, absint.Loop) as e:
+        return ("stuck", str(e))
+    if not isinstance(r, Enum):
+        return ("stuck", "result %r" % (r,))
+    if getattr(r, "name", None) == "Err" or r.variant == 1:
+        return ("error", _err_kind(fb, r), _err_loc(r))
+    return ("ok", r)
+
+
+def _err_loc(r):
+    x = r.fields[0] if isinstance(r, Enum) and r.fields else None
+    loc = x.fields[1] if isinstance(x, Enum) and len(x.fields) == 2 else (x[1] if isinstance(x, list) and len(x) == 2 else None)
+    if isinstance(loc, Enum) and loc.variant == 1 and loc.fields:
+        v = loc.fields[0]
+        return [absint.deref(q) for q in v] if isinstance(v, list) else None
+    return None
+
+
+def _end_of(text, sub):
+    """(line, column just after the last character) of the first occurrence of `sub` — the location the lexer gives its last token"""
+    i = text.index(sub) + len(sub)
+    line = text.count("\n", 0, i) + 1
+    col = i - (text.rfind("\n", 0, i) + 1) + 1
+    return [line, col]
+
+
+def rule_syntax_error_locations(ctx, rule):
+    """a syntax error about a malformed sub-form carries no location, or one at or before that sub-form's last token — never a later
+    position of the enclosing top-level form"""
+    from .ctx import where_of
+    fb = ctx.fb()
+    pc = fb.find("parser::parser::Parser::parse_current", required=False)
+    where = where_of(pc) if pc is not None and not getattr(pc, "missing", False) else None
+    decided = 0
+    for text, sub in SYNTAX_FAULTS:
+        key = "syntax-error/%s in %s" % (sub, text.replace("\n", "\\n"))
+        r = parse_statement(fb, text + " ")
+        if r[0] == "stuck":
+            ctx.undecided(rule, key, "cannot follow the parser on %r (%s)" % (text, r[1]), where)
+            continue
+        if r[0] != "error":
+            ctx.undecided(rule, key, "%r is not a syntax error on this tree (%r)" % (text, r[1]), where)
+            continue
+        decided += 1
+        loc, end = r[2], _end_of(text, sub)
+        good = loc is None or (loc[0], loc[1]) <= (end[0], end[1])
+        ctx.inst(rule, key, {"error": r[1], "location": loc, "faulty_form_ends_at": end})
+        ctx.oblige(good)
+        if not good:
+            ctx.report(rule, key, "the syntax error (%s) about the malformed %s in %r is located at %s, after the form it is about (which ends "
+                       "at %s)" % (r[1], sub, text, loc, end), where)
+    return decided
